@@ -365,7 +365,7 @@ int main(int argc, char *argv[])
 	static char line[1 << 22];
 	char dir[4096];
 	/* scratch directory inside the directory of the binary (the check removes that on exit) */
-	snprintf(dir, sizeof(dir), "%%s.d-XXXXXX", argv[0]);
+	snprintf(dir, sizeof(dir), "%s.d-XXXXXX", argv[0]);
 	if (!mkdtemp(dir) || chdir(dir))
 		return 2;
 	syn_init();
